@@ -1,4 +1,5 @@
 SPEC = dict(
+    aux_kinds=['perm ', 'perms ', 'qseq ', 'rot '],   # streams that call unexported helpers directly; skipped (UNAVAILABLE) when those are renamed
     harness="verif_c20",
     model="C20",
     uses_hashes=True,
